@@ -63,6 +63,8 @@ def observe_levels(fos, start, allow_compressed):
                 cands.append([cps(nm), 'absent'])
             elif os.path.isdir(p):
                 cands.append([cps(nm), 'isdir'])
+            elif not os.path.isfile(p):
+                cands.append([cps(nm), 'special'])
             else:
                 t = trees.decompress_by_name(nm, open(p, 'rb').read())
                 fdev = fos.stat(p).st_dev
@@ -82,7 +84,9 @@ def impl_find(fos, start, allow_xdev, allow_compressed):
     orig = ft.os
     ft.os = fos
     try:
-        r = ft.find_top_level_manifest(start, allow_xdev=allow_xdev, allow_compressed=allow_compressed)
+        from harness import treeimpl
+        with treeimpl.time_limit(10):
+            r = ft.find_top_level_manifest(start, allow_xdev=allow_xdev, allow_compressed=allow_compressed)
     except Exception as e:
         return classify(e)
     finally:
@@ -100,6 +104,8 @@ def case(ctx, drv, top, chain, contents, start_depth, allow_xdev, allow_compress
             p = os.path.join(d, nm)
             if c == ('dir',):
                 os.makedirs(p, exist_ok=True)
+            elif c == ('fifo',):
+                os.mkfifo(p)
             else:
                 data = c[1] if isinstance(c, tuple) else trees.compress(os.path.splitext(nm)[1] if os.path.splitext(nm)[1] in trees.SUFFIXES else '', c.encode('utf8'))
                 open(p, 'wb').write(data)
@@ -173,6 +179,8 @@ def level_contents(rng, chain, lvl, depth):
         files = {'Manifest': ('dir',)}
     if rng.random() < 0.03:
         files['Manifest.gz'] = ('bytes', b'not gzip data')
+    if rng.random() < 0.04:
+        files[rng.choice(['Manifest', 'Manifest', 'Manifest.gz'])] = ('fifo',)      # a named pipe: no Manifest, and never to be opened
     return files
 
 
@@ -182,7 +190,7 @@ def run(ctx):
                 'string-prefix look-alikes, a DATA entry before the IGNORE; every starting depth; allow_compressed on/off; a device '
                 'boundary at any level (st_dev overridden below a directory, for stat and fstat alike) with crossing allowed or not. '
                 'Oracle: the Lean specification `outermost` evaluated on the observed chain. non-trivial = every distinct scenario')
-    ctx.assumptions = ['the starting path has no symlinked component (textual relpath)', 'device boundaries are simulated by overriding st_dev']
+    ctx.assumptions = ['the starting path has no symlinked component (textual relpath)', 'a call that does not return within 10 s is a failure (call-hangs)', 'device boundaries are simulated by overriding st_dev']
     drv = common.Driver()
     base = common.scratch_dir('gv.c15.')
     top = os.path.join(base, 't')
